@@ -32,6 +32,7 @@ func scEarly(sc int) bool {
 type op struct {
 	kind     string // add reset price remove evict promote
 	local    bool
+	async    bool  // remote add WITHOUT waiting for the promotion run; views are read and edited in that window
 	txs      []mtx // add: the batch; remove: one
 	scenario int
 	gasLimit uint64
@@ -42,6 +43,17 @@ type op struct {
 	price    uint64
 	oob      bool
 	k        int
+}
+
+// addMode: 0 remote (sync), 1 local, 2 remote asynchronous with racing reads (the model sees a remote add)
+func (o op) addMode() int {
+	if o.local {
+		return 1
+	}
+	if o.async {
+		return 2
+	}
+	return 0
 }
 
 func b2i(b bool) int {
@@ -64,7 +76,7 @@ func txsText(ts []mtx) string {
 func (o op) text() string {
 	switch o.kind {
 	case "add":
-		return fmt.Sprintf("add %d %s", b2i(o.local), txsText(o.txs))
+		return fmt.Sprintf("add %d %s", o.addMode(), txsText(o.txs))
 	case "reset":
 		var sb strings.Builder
 		fmt.Fprintf(&sb, "reset %d %d %d %d %d", o.scenario, o.lo, o.ln, o.gasLimit, len(o.changes))
@@ -168,7 +180,15 @@ func parseOp(line string) (op, error) {
 	o := op{kind: f[0]}
 	switch f[0] {
 	case "add":
-		o.local = r.next() != 0
+		switch r.next() {
+		case 0:
+		case 1:
+			o.local = true
+		case 2:
+			o.async = true
+		default:
+			r.err = fmt.Errorf("bad add mode")
+		}
 		o.txs = r.txs()
 	case "reset":
 		o.scenario = int(r.next())
@@ -227,9 +247,22 @@ func (w *world) exec(o op, pre *view) (res []string, err error) {
 			txs = append(txs, tx)
 		}
 		var errs []error
-		if o.local {
+		switch {
+		case o.local:
 			errs = w.pool.AddLocals(txs)
-		} else {
+		case o.async:
+			// the window between add() and its promotion run: exported views are read and edited by the caller
+			// straight away (no comparison here: the run may or may not have happened yet), then the pool is
+			// brought to quiescence. The second, empty run changes nothing, so the model sees one remote add.
+			errs = w.pool.AddRemotes(txs)
+			if p, e := w.pool.Pending(); e == nil {
+				w.scribble(p)
+			}
+			cp, cq := w.pool.Content()
+			w.scribble(cp)
+			w.scribble(cq)
+			w.pool.VerifC20PromoteSync()
+		default:
 			errs = w.pool.AddRemotesSync(txs)
 		}
 		for _, e := range errs {
